@@ -88,7 +88,7 @@ def history(draw, tier="quick", jumps=False, long=False):
         step = draw(st.sampled_from([30000, 32000, 32767]))
         events.append(["F", pos, count, step])
         pos += count * step
-        seen.append(pos)
+        seen[:] = [pos]  # (duplicates are drawn from `seen`: nothing from before the run, it is more than 2^15 behind)
     for _ in range(n):
         k = draw(st.sampled_from(["next", "next", "next", "next", "loss", "far", "reorder", "dup", "report", "report"]))
         gap = draw(st.sampled_from([0, 1, 5, 20, 20, 33, 400, 2000]))
@@ -106,6 +106,7 @@ def history(draw, tier="quick", jumps=False, long=False):
         elif k == "far":
             pos += draw(st.sampled_from([1000, 20000, 32000, 32767]))
             u = pos
+            seen[:] = []  # (a duplicate of something from before the jump could be more than 2^15 behind: outside the statement)
         elif k == "reorder":
             u = pos - draw(st.integers(1, 60))
             if u < -30:
